@@ -241,6 +241,7 @@ def handle (line : String) : String :=
   | ["dn", h] => match Wire.bytesOfHex h with
     | some bs => match definedNameXls bs with
       | .ok (ix, t) => s!"{match ix with | some i => toString i | none => "-"} {utf8Hex t}"
+      | .err e => "err:" ++ e
       | _ => "panic"
     | none => "bad-request"
   | ["str16", h] => match Wire.bytesOfHex h with
